@@ -251,8 +251,14 @@ ChangeMetric ==
 \* Conformance at phase granularity (hook H2: the tree nodes and the roots after each phase of a full build).
 \* The two deterministic phases must produce exactly what Forest.tla computes; the others must satisfy
 \* the inter-phase invariants of Arroy.tla.  Failures are DRIFT (they localise a defect, they are not a verdict).
+\* (the edit functions of Forest.tla are partial: they are only applied to forests without dangling references)
+Closed(nodes, roots) ==
+  \A k \in DOMAIN roots : roots[k] \in DOMAIN nodes /\
+     LET w == Walk(nodes, TreeRef(roots[k]), Fuel(nodes)) IN w.dang = {} /\ ~w.cyc
 PhaseDrift(e, pre, cap) ==
   IF ~("phases" \in DOMAIN e) \/ Len(e.phases) # 5 THEN {}
+  ELSE IF ~Closed(pre.nodes, pre.meta.roots) \/ ~Closed(JNodes(e.phases[1].nodes), e.phases[1].roots)
+  THEN {<<"C01", "phase_conformance_not_evaluated_on_a_dangling_forest">>}
   ELSE
     LET n == Cardinality(Live(pre))
         roots0 == pre.meta.roots
@@ -344,7 +350,9 @@ Commit ==
          bad == (IF e.res.c # "Ok" THEN {<<"C08", "commit_failed">>} ELSE {}) \cup
                 (IF all # cur THEN {<<"C08", "commit_changed_the_data">>} ELSE {}) \cup
                 (IF e.foreign # 0 THEN {<<"C07", "keys_outside_the_indexes">>} ELSE {}) \cup
-                UNION {ObsDefects(e.obs_all[j], all[j]) : j \in DOMAIN e.obs_all}
+                UNION {ObsDefects(e.obs_all[j], all[j]) : j \in DOMAIN e.obs_all} \cup
+                \* what a fresh read transaction shows right after the commit is the committed version, nothing else (C08)
+                {<<"C08", "reader_after_commit_" \o d[2]>> : d \in UNION {ObsDefects(e.obs_all[j], all[j]) : j \in DOMAIN e.obs_all}}
      IN /\ Report("VIOL", e, bad)
         /\ cur' = all
         /\ committed' = all
@@ -358,7 +366,8 @@ Abort ==
          all == [j \in DOMAIN cur |-> JIndex(e.all[j])]
          bad == (IF all # committed THEN {<<"C08", "abort_left_a_trace">>, <<"C10", "abort_left_a_trace">>} ELSE {}) \cup
                 (IF e.foreign # 0 THEN {<<"C07", "keys_outside_the_indexes">>} ELSE {}) \cup
-                UNION {ObsDefects(e.obs_all[j], all[j]) : j \in DOMAIN e.obs_all}
+                UNION {ObsDefects(e.obs_all[j], all[j]) : j \in DOMAIN e.obs_all} \cup
+                {<<"C08", "reader_after_abort_" \o d[2]>> : d \in UNION {ObsDefects(e.obs_all[j], all[j]) : j \in DOMAIN e.obs_all}}
      IN /\ Report("VIOL", e, bad)
         /\ cur' = all
         /\ caps' = ccaps
